@@ -399,6 +399,20 @@ def run_case(case, rec, mon=None):
                     comp.finalize()
                 except Exception:
                     pass
+            # always: an utterance of a narrow floating type, then one of float64 in small chunks (whatever is carried from
+            # chunk to chunk is carried in full precision)
+            for dt_, N in ((np.float16, comp.frame_length + 2 * comp.frame_shift), (np.float64, 2 * comp.frame_length + 3 * comp.frame_shift + 1)):
+                x = gen.signal(rng, int(N), "noise", dt_)
+                x.setflags(write=False)
+                parts = [1, 2] * (int(N) // 3) + [int(N) - 3 * (int(N) // 3)]
+                try:
+                    stream(comp, x, [p_ for p_ in parts if p_])
+                except Exception:
+                    try:
+                        comp.finalize()
+                    except Exception:
+                        pass
+            rec.count("narrow_then_float64_utterance_pairs")
             # always: an utterance too short for a frame (but not empty) right before an ordinary one, on the same object
             fl_, fs_ = comp.frame_length, comp.frame_shift
             for N1 in sorted({1, max(1, fs_ // 2 - 1)}):
